@@ -319,3 +319,6 @@ RULE += reuse.RULE
 from pv import fluent  # noqa: E402
 SUBS.append(fluent.sub(ID))
 RULE += fluent.RULE
+
+# cases at scale (see pv/scale.py)
+RULE += scale.RULE
